@@ -613,6 +613,10 @@ class TLSConnection(TLSRecordLayer):
             alpnExt = serverHello.getExtension(ExtensionType.alpn)
             if alpnExt:
                 session.appProto = alpnExt.protocol_names[0]
+            else:
+                # nothing negotiated on this connection: do not report the
+                # protocol of the connection the session was created on
+                session.appProto = None
             return
 
         # If the server selected an SRP ciphersuite, the client finishes
